@@ -231,6 +231,10 @@ impl<T: RefCnt, Cfg: Config> CaS<T> for HybridStrategy<Cfg> {
             let old = <Self as InnerStrategy<T>>::load(self, storage);
             // Observation of their inequality is enough to make a verdict
             if old.as_ptr() != current.as_raw() {
+                // Get rid of the rejected value while `old` is still an ordinary local: should its
+                // destructor panic, `old` is released by the unwinding. As a return value already
+                // in flight (with `new` dropped as a parameter afterwards) it would be leaked.
+                drop(new);
                 return old;
             }
             // If they are still equal, put the new one in.
